@@ -24,10 +24,57 @@ package tracing
 //@   modifies nothing
 //@   emits Call(code("ISenderHandle.Done"), this)
 
+// The broadcaster: one goroutine handles one message at a time, so every subscriber present during a
+// broadcast step receives the same trace, in list order, before the next trace is taken.
 //@ func (*tracer).run
 //@   prop C09 C07 C17
+//@   ensures [done-closed-on-exit] isClose(ev(evlen - 1)) && evch(ev(evlen - 1)) == t.done
+//@   loop 1 for
+//@     invariant t.traces == old(t.traces) && t.subscription == old(t.subscription) && t.unSubscription == old(t.unSubscription) &&
+//@               t.terminate == old(t.terminate) && t.done == old(t.done)
+//@     iter ensures [broadcast-same-trace-to-every-subscriber-in-order]
+//@       isRecv(ev(old(evlen))) && evch(ev(old(evlen))) == t.traces ==>
+//@         t.subscribers == old(t.subscribers) && evlen == old(evlen) + 1 + len(t.subscribers) &&
+//@         forall p int :: old(evlen) + 1 <= p && p < evlen ==>
+//@           isSend(ev(p)) && evch(ev(p)) == old(t.subscribers[p - evlen - 1]) && evval(ev(p)) == evval(ev(old(evlen)))
+//@     iter ensures [subscribe-appends-exactly-the-channel-and-acknowledges]
+//@       let m := evval(ev(old(evlen))).(subscription) in
+//@       isRecv(ev(old(evlen))) && evch(ev(old(evlen))) == t.subscription ==>
+//@         len(t.subscribers) == old(len(t.subscribers)) + 1 && t.subscribers[len(t.subscribers) - 1] == m.channel &&
+//@         (forall k int :: 0 <= k && k < old(len(t.subscribers)) ==> t.subscribers[k] == old(t.subscribers[k])) &&
+//@         evlen == old(evlen) + 2 && isSend(ev(old(evlen) + 1)) && evch(ev(old(evlen) + 1)) == m.ok
+//@     iter ensures [unsubscribe-of-an-absent-channel-changes-nothing]
+//@       let m := evval(ev(old(evlen))).(unSubscription) in
+//@       isRecv(ev(old(evlen))) && evch(ev(old(evlen))) == t.unSubscription &&
+//@       (forall k int :: 0 <= k && k < old(len(t.subscribers)) ==> old(t.subscribers[k]) != m.channel) ==>
+//@         evlen == old(evlen) + 1 && len(t.subscribers) == old(len(t.subscribers)) &&
+//@         forall k int :: 0 <= k && k < len(t.subscribers) ==> t.subscribers[k] == old(t.subscribers[k])
+//@     iter ensures [unsubscribe-removes-one-occurrence-and-acknowledges]
+//@       let m := evval(ev(old(evlen))).(unSubscription) in
+//@       isRecv(ev(old(evlen))) && evch(ev(old(evlen))) == t.unSubscription &&
+//@       (exists k int :: 0 <= k && k < old(len(t.subscribers)) && old(t.subscribers[k]) == m.channel) ==>
+//@         len(t.subscribers) == old(len(t.subscribers)) - 1 &&
+//@         evlen == old(evlen) + 2 && isSend(ev(old(evlen) + 1)) && evch(ev(old(evlen) + 1)) == m.ok &&
+//@         (let n := len(t.subscribers) in forall k int :: 0 <= k && k < n ==>
+//@            t.subscribers[k] == old(t.subscribers[k]) || t.subscribers[k] == old(t.subscribers[n]))
+//@     iter ensures [unsubscribe-keeps-every-other-subscriber]
+//@       let m := evval(ev(old(evlen))).(unSubscription) in
+//@       isRecv(ev(old(evlen))) && evch(ev(old(evlen))) == t.unSubscription ==>
+//@         forall j int :: 0 <= j && j < old(len(t.subscribers)) && old(t.subscribers[j]) != m.channel ==>
+//@           exists k int :: 0 <= k && k < len(t.subscribers) && t.subscribers[k] == old(t.subscribers[j])
 //@   loop 2 range t.subscribers
-//@     invariant pos == -1 || (0 <= pos && pos < len(t.subscribers))
+//@     invariant pos == -1 && forall k int :: 0 <= k && k < i ==> t.subscribers[k] != unsch.channel
+//@     invariant t.traces == old(t.traces) && t.subscription == old(t.subscription) && t.unSubscription == old(t.unSubscription) &&
+//@               t.terminate == old(t.terminate) && t.done == old(t.done) && evlen == athead(1, evlen) + 1
+//@   loop 3 range t.subscribers
+//@     invariant t.traces == old(t.traces) && t.subscription == old(t.subscription) && t.unSubscription == old(t.unSubscription) &&
+//@               t.terminate == old(t.terminate) && t.done == old(t.done) && t.subscribers == athead(1, t.subscribers)
+//@     invariant evlen == athead(1, evlen) + 1 + rk3
+//@     invariant forall p int :: athead(1, evlen) + 1 <= p && p < evlen ==>
+//@               isSend(ev(p)) && evch(ev(p)) == athead(1, t.subscribers[p - evlen - 1]) && evval(ev(p)) == iface(trace)
+//@     invariant preservedSince(1, "elems([]chan ITrace)")
+//@   loop 4 range t.subscribers
+//@     invariant t.done == old(t.done)
 
 // Unwrap strips wrappers; it is a deterministic function of the trace (no events, no state).
 //@ func Unwrap
@@ -35,3 +82,52 @@ package tracing
 //@   pure
 //@   modifies nothing
 //@   flag emits none
+
+//@ func ITracer.Subscribe
+//@   assumed
+//@   flag emits opaque
+//@   flag allocs
+//@   ensures result != nil
+//@ func ITracer.Unsubscribe
+//@   assumed
+//@   flag emits opaque
+//@ func ITracer.Done
+//@   assumed
+//@   pure
+//@   modifies nothing
+//@   flag emits none
+
+// (*tracer): the client side of the broadcaster's protocol
+//@ func (*tracer).Send
+//@   prop C09
+//@   modifies nothing
+//@   emits Send(t.traces, trace)
+
+//@ func (*tracer).SubscribeChannel
+//@   prop C09
+//@   modifies nothing
+//@   ensures result == channel
+//@   ensures [subscribe-then-wait-for-the-acknowledgement] evlen == old(evlen) + 2 && isSend(ev(old(evlen))) && evch(ev(old(evlen))) == t.subscription &&
+//@             is(evval(ev(old(evlen))), subscription) && evval(ev(old(evlen))).(subscription).channel == channel &&
+//@             isRecv(ev(old(evlen) + 1)) && evch(ev(old(evlen) + 1)) == evval(ev(old(evlen))).(subscription).ok
+
+//@ func (*tracer).RegisterSender
+//@   prop C09 C07
+//@   modifies nothing
+//@   emits WgAdd(mu(t.senders), 1)
+//@   ensures tag(result) != 0
+
+// The relay: every trace received from the source tracer is transformed and each result forwarded, in order,
+// before the next one is taken; it leaves only when the source tracer is done, releasing its sender handle once.
+//@ func NewRelay$1
+//@   prop C09 C07
+//@   requires transformer != nil
+//@   ensures [sender-handle-released-exactly-once] count(Call, code("tracing|ISenderHandle.Done")) == old(count(Call, code("tracing|ISenderHandle.Done"))) + 1
+//@   ensures [leaves-only-when-the-source-is-done] exists p int :: old(evlen) <= p && p + 1 < evlen && isRecv(ev(p)) && evch(ev(p)) == in.Done() &&
+//@             isCall(ev(p + 1)) && evch(ev(p + 1)) == code("tracing|ISenderHandle.Done")
+//@   loop 1 for
+//@     invariant count(Call, code("tracing|ISenderHandle.Done")) == old(count(Call, code("tracing|ISenderHandle.Done")))
+//@     iter ensures [every-transformed-trace-is-forwarded] true
+//@   loop 2 range traces
+//@     invariant count(Call, code("tracing|ISenderHandle.Done")) == old(count(Call, code("tracing|ISenderHandle.Done")))
+//@     invariant countOn(Trace, out) == atentry(2, countOn(Trace, out)) + rk2
